@@ -9,18 +9,26 @@ HERE="$(cd "$(dirname "$0")" && pwd)"
 H="$(dirname "$HERE")"
 export GOFLAGS=-mod=mod GOPROXY=off
 export VERIF_ROOT="${VERIF_ROOT:-$(dirname "$H")}"
-OV="$H/bin/k5ov"
+# the self-test mutations get their own overlay dir and binary, so that they can never
+# leak into a concurrent ./check run
+# (leading underscore: the go tool ignores the directory, `go build ./...` stays clean)
+OV="$H/bin/_k5ov${K5_MUTATION:+-mut}"
+BIN="$H/bin/k5${K5_MUTATION:+mut}.test"
 mkdir -p "$OV"
+exec 9> "$OV/.lock"; flock 9   # generation + build are serialised per overlay dir
 cd "$H" || exit 2
 [ -f /repo/go.sum ] && cp /repo/go.sum go.sum 2>/dev/null
 
-if ! python3 "$HERE/genoverlay.py" "$OV" ${K5_MUTATION:-} ; then
-  echo "ENGINE-ERROR property=C33 overlay generation failed"; exit 2
+if ! python3 "$HERE/genoverlay.py" "$OV" ${K5_MUTATION:-} 2> "$OV/gen.log"; then
+  echo "ENGINE-ERROR property=C33 overlay generation failed"; cat "$OV/gen.log"; exit 2
 fi
-if ! go test -c -overlay "$OV/overlay.json" -vet=off -o "$H/bin/k5.test" ./k5 > "$H/bin/build.C33.log" 2>&1; then
+# K5_MUTATION is the detection self-test (DESIGN §8); ./check never sets it
+[ -n "${K5_MUTATION:-}" ] && grep MUTATION "$OV/gen.log"
+if ! go test -c -overlay "$OV/overlay.json" -vet=off -o "$BIN" ./k5 > "$H/bin/build.C33.log" 2>&1; then
   echo "ENGINE-ERROR property=C33 harness build failed (see $H/bin/build.C33.log)"; tail -20 "$H/bin/build.C33.log"; exit 2
 fi
 
+flock -u 9
 case "$MODE" in
   build) exit 0 ;;
   replay)
@@ -29,7 +37,7 @@ case "$MODE" in
   quick|thorough) export VERIF_TIER="$MODE" ;;
   *) echo "usage: $0 quick|thorough|build|replay <file>"; exit 2 ;;
 esac
-"$H/bin/k5.test" -test.run '^TestC33$' -test.timeout 0 -test.parallel 64
+"$BIN" -test.run '^TestC33$' -test.timeout 0 -test.parallel 64
 rc=$?
 case $rc in
   0|1|2) exit $rc ;;
